@@ -43,12 +43,12 @@ def r1_adoption_precedes_start(chk: Check):
     if len(proc) != 1:
         return
     # adoption branch: entered when a process was found (and the job is not finished), waits for it, ends final, never starts
-    tests = [n for n in g.live if n.kind == "test" and rd.canon(n.ast, n) in ("await job.aio_process() is not None",)]
+    tests = [n for n in g.live if n.kind == "test" and rd.canon(n.ast, n) in ("await job.aio_process() is None",)]
     chk.require(len(tests) == 1, chk.fkey(sub, "adoption test"), "the found process must be tested with `is not None`", loc)
     if len(tests) != 1:
         return
     t = tests[0]
-    tb = [b for b, l in t.succ if l is True][0]
+    tb = [b for b, l in t.succ if l is False][0]
     region = g.reachable(tb, avoid=[x for x in g.live if x.kind == "test" and src(x.ast) in ("job.donepath.exists()", "job.donepath.is_file()") and g.dominates(t, x) and not g.dominates(tb, x)])
     waits = [n for n, c in g.call_nodes(lambda c: src(c) == "process.aio_code()") if g.dominates(tb, n)]
     chk.require(len(waits) == 1, chk.fkey(sub, "adoption waits"), "an adopted process must be waited for (process.aio_code())", loc)
